@@ -5,6 +5,7 @@ import (
 	"context"
 	"errors"
 	"fmt"
+	"io"
 	"slices"
 	"strings"
 	"testing"
@@ -76,6 +77,9 @@ func TestC06(t *testing.T) {
 				}
 			}
 			cl = append(cl, "other_id_keys_around")
+		}
+		if rapid.IntRange(0, 2).Draw(t, "server_builds_its_options_once") > 0 {
+			defer reuseOptions()()
 		}
 		c, err := newConn(context.Background(), tr, echKeys(serverKeys...))
 		if err != nil || !c.ECHAccepted() {
@@ -385,6 +389,25 @@ func TestC06(t *testing.T) {
 			}
 		}
 		for i := 0; i < nops && !aborted; i++ {
+			if rapid.IntRange(0, 7).Draw(t, "other_client_now") == 0 {
+				// the accept loop takes in another client meanwhile, served with the very same
+				// options, whose hello the same key opens: handshakes of two clients overlap
+				ops = append(ops, "other_connection_accepted")
+				osl, err := hello.NewSealer(sc.Key.Config, sc.Key.Priv.PublicKey().Bytes(), sc.Suite, sc.Key.ID)
+				if err != nil {
+					t.Fatalf("harness: %v", err)
+				}
+				om, err := osl.SealOuter(sc.Tuple.Outer.Clone(), hello.Encode(hello.Compress(sc.Tuple.Inner, sc.Tuple.RunStart, sc.Tuple.RunLen), make([]byte, sc.Tuple.Pad)), true)
+				if err != nil {
+					t.Fatalf("harness: %v", err)
+				}
+				orec := hello.Record(22, sc.RecVer, om) // the same hello sealed afresh: another HPKE context
+				oc, oe := newConn(context.Background(), wire.New(orec, io.EOF), echKeys(serverKeys...))
+				if oe != nil || !oc.ECHAccepted() {
+					ev.Violation(t, "C06", map[string]any{"keys": keysReplay(serverKeys), "client_stream": hx(orec)}, "a valid first hello on another connection was not accepted: %v", oe)
+				}
+				cl = append(cl, "other_connection_between_flights")
+			}
 			switch rapid.IntRange(0, 3).Draw(t, "op") {
 			case 0: // client sends
 				kind := c06ClientKinds[uniform(t, "ckind", len(c06ClientKinds))]
@@ -648,15 +671,26 @@ func TestC06Blocked(t *testing.T) {
 				}
 			}
 		}
-		prev := 0
-		for _, k := range append(cutsW, len(bw)) {
-			if k <= prev {
-				continue
+		// the relay's other direction writes while the reader is parked: the Write returns (a
+		// Conn whose Write waits for its own pending Read would hang here - the watchdog reports it)
+		werr := ""
+		rp["while"] = "Write of the backend's answer while a Read is pending"
+		watch("C06", rp, func() {
+			prev := 0
+			for _, k := range append(cutsW, len(bw)) {
+				if k <= prev {
+					continue
+				}
+				if n, e := c.Write(bw[prev:k]); e != nil || n != k-prev {
+					werr = fmt.Sprintf("Write of the backend's answer returned (%d, %v)", n, e)
+					return
+				}
+				prev = k
 			}
-			if n, e := c.Write(bw[prev:k]); e != nil || n != k-prev {
-				ev.Violation(t, "C06", rp, "Write of the backend's answer returned (%d, %v)", n, e)
-			}
-			prev = k
+		})
+		delete(rp, "while")
+		if werr != "" {
+			ev.Violation(t, "C06", rp, "%s", werr)
 		}
 		tr.OnWrite = nil
 		if !early {
